@@ -22,7 +22,8 @@ RULE = ("Hypothesis-generated cases in five families: (value) Python values of e
         "exponents, INF/NaN, surrounding XML whitespace, base64 with breaks, hex case) -> deserialize must give the "
         "by-construction value (exact via Fraction); (union) such a form x a candidate type list -> result type is the "
         "first in the documented priority order whose lexical space contains it; (enum) enumerations over "
-        "str/int/float/Decimal/QName values; (bounds) all integers within +-2 of the 2^7..2^64 boundaries enumerated "
+        "str/int/float/Decimal/QName values; (enumctx) one enumeration class over QName or bytes members converted "
+        "several times under different prefix maps / formats - the result depends on the call's context only; (bounds) all integers within +-2 of the 2^7..2^64 boundaries enumerated "
         "against libxml2 for the inferred xs datatype. Non-trivial = value not in {0, 1, '', True, False} and lexical "
         "form longer than one character; distinct by (family, type, lexical/value).")
 ASSUMPTIONS = [
@@ -497,6 +498,60 @@ def run_enum(case, col):
     return []
 
 
+
+# ---------------------------------------------------------------------------
+# family "enumctx": one enumeration class, several conversions under *different* contexts
+# (prefix maps for QName members, formats for bytes members): the result may depend on the
+# context of the call only, never on earlier calls.
+
+@st.composite
+def case_enumctx(draw):
+    base = draw(st.sampled_from(["qname", "bytes"]))
+    if base == "qname":
+        locals_ = draw(st.lists(NCNAME, min_size=1, max_size=2, unique=True))
+        uris = draw(st.lists(URI, min_size=2, max_size=3, unique=True))
+        members = [[u, l] for u in uris for l in locals_]
+        steps = []
+        for _ in range(draw(st.integers(2, 4))):
+            u, l = draw(st.sampled_from(members))
+            prefix = draw(st.sampled_from(["p", "p", "q", None]))
+            steps.append({"s": (f"{prefix}:{l}" if prefix else l), "ns_map": [[prefix, u]], "expect": members.index([u, l])})
+        return {"fam": "enumctx", "base": base, "members": members, "steps": steps}
+    # bytes: strings that are valid in both formats decode to different values
+    texts = draw(st.lists(st.text(alphabet="0123456789abcdefABCDEF", min_size=4, max_size=8).filter(lambda t: len(t) % 4 == 0),
+                          min_size=1, max_size=2, unique=True))
+    members, steps = [], []
+    for t in texts:
+        members.append(["base16", t])
+        members.append(["base64", t])
+    for _ in range(draw(st.integers(2, 4))):
+        i = draw(st.integers(0, len(members) - 1))
+        steps.append({"s": members[i][1], "format": members[i][0], "expect": i})
+    return {"fam": "enumctx", "base": base, "members": members, "steps": steps}
+
+
+def run_enumctx(case, col):
+    if case["base"] == "qname":
+        vals = [QName(u, l) for u, l in case["members"]]
+    else:
+        vals = [bytes.fromhex(t) if f == "base16" else base64.b64decode(t) for f, t in case["members"]]
+    # members with equal values are aliases in a python Enum: expected member = first with that value
+    E = enum.Enum("E", {f"M{i}": v for i, v in enumerate(vals)})
+    ctxs = {str(st_.get("ns_map") or st_.get("format")) for st_ in case["steps"]}
+    col.case(("enumctx", case["base"], case["members"], case["steps"]), len(ctxs) > 1,
+             sample={"family": "enumctx", "members": case["members"], "steps": case["steps"]},
+             labels=[f"enumctx:{case['base']}", f"enumctx:contexts={len(ctxs)}"])
+    for i, step in enumerate(case["steps"]):
+        kw = {"ns_map": {k: v for k, v in step["ns_map"]}} if "ns_map" in step else {"format": step["format"]}
+        want = E(vals[step["expect"]])
+        try:
+            got = converter.deserialize(step["s"], [E], **kw)
+        except Exception as e:
+            return [Failure(exc_sig(f"enumctx-raise/{case['base']}", e), f"step {i}: deserialize({step['s']!r}, {kw}) raised {e!r}", case)]
+        if got is not want:
+            return [Failure(f"enumctx-history/{case['base']}", f"step {i} of {case['steps']}: deserialize({step['s']!r}, {kw}) = {got!r}, expected {want!r}", case)]
+    return []
+
 # ---------------------------------------------------------------------------
 # family "bounds" (exhaustive): integer datatype inference around every boundary
 
@@ -515,7 +570,7 @@ def bounds_cases():
 # ---------------------------------------------------------------------------
 
 FAMILIES = {"lex": (case_lex, run_lex), "value": (case_value, run_value), "union": (case_union, run_union),
-            "enum": (case_enum, run_enum)}
+            "enum": (case_enum, run_enum), "enumctx": (case_enumctx, run_enumctx)}
 RUN = {k: v[1] for k, v in FAMILIES.items()}
 
 
@@ -524,8 +579,8 @@ def execute(case, col):
 
 
 def plan(tier, seed):
-    per = {"quick": {"lex": 5000, "value": 5000, "union": 2500, "enum": 1200},
-           "thorough": {"lex": 400000, "value": 400000, "union": 150000, "enum": 50000}}[tier]
+    per = {"quick": {"lex": 5000, "value": 5000, "union": 2500, "enum": 1200, "enumctx": 1200},
+           "thorough": {"lex": 400000, "value": 400000, "union": 150000, "enum": 50000, "enumctx": 50000}}[tier]
     nsh = {"quick": 4, "thorough": 16}[tier]
     shards = [{"fam": "bounds"}]
     for fam, n in per.items():
